@@ -13,14 +13,14 @@ Inductive pbf := PBF (idx : Z) (wt : N) (payload : bytes).
 Definition idx_ok (idx : Z) : Prop := (0 <= idx < 2305843009213693952)%Z.
 
 Inductive pb_msg : bytes -> list pbf -> Prop :=
-| pb_nil : pb_msg [] []
-| pb_varint : forall idx u more fs, idx_ok idx -> u < two64 -> pb_msg more fs ->
+| pbm_nil : pb_msg [] []
+| pbm_varint : forall idx u more fs, idx_ok idx -> u < two64 -> pb_msg more fs ->
     pb_msg (append_tag WTVarInt idx ++ append_varuint u ++ more) (PBF idx WTVarInt (append_varuint u) :: fs)
-| pb_fixed64 : forall idx b more fs, idx_ok idx -> len b = 8 -> pb_msg more fs ->
+| pbm_fixed64 : forall idx b more fs, idx_ok idx -> len b = 8 -> pb_msg more fs ->
     pb_msg (append_tag WT64 idx ++ b ++ more) (PBF idx WT64 b :: fs)
-| pb_length : forall idx body more fs, idx_ok idx -> len body < two64 -> pb_msg more fs ->
+| pbm_length : forall idx body more fs, idx_ok idx -> len body < two64 -> pb_msg more fs ->
     pb_msg (append_tag WTLength idx ++ append_varuint (len body) ++ body ++ more) (PBF idx WTLength body :: fs)
-| pb_fixed32 : forall idx b more fs, idx_ok idx -> len b = 4 -> pb_msg more fs ->
+| pbm_fixed32 : forall idx b more fs, idx_ok idx -> len b = 4 -> pb_msg more fs ->
     pb_msg (append_tag WT32 idx ++ b ++ more) (PBF idx WT32 b :: fs).
 
 Lemma pb_msg_app : forall a fa, pb_msg a fa -> forall b fb, pb_msg b fb -> pb_msg (a ++ b) (fa ++ fb).
@@ -28,10 +28,10 @@ Proof.
   induction 1 as [|idx u more fs Hi Hu Hm IH|idx bb more fs Hi Hl Hm IH|idx body more fs Hi Hl Hm IH|idx bb more fs Hi Hl Hm IH];
     intros b fb Hb; cbn [app].
   - exact Hb.
-  - rewrite <- !app_assoc. apply pb_varint; auto.
-  - rewrite <- !app_assoc. apply pb_fixed64; auto.
-  - rewrite <- !app_assoc. apply pb_length; auto.
-  - rewrite <- !app_assoc. apply pb_fixed32; auto.
+  - rewrite <- !app_assoc. apply pbm_varint; auto.
+  - rewrite <- !app_assoc. apply pbm_fixed64; auto.
+  - rewrite <- !app_assoc. apply pbm_length; auto.
+  - rewrite <- !app_assoc. apply pbm_fixed32; auto.
 Qed.
 
 Lemma pb_msg_concat {A} (h : A -> bytes) (g : A -> list pbf) (l : list A) :
@@ -88,39 +88,39 @@ Proof.
     using codec_ind'; intros Hp v idx Hi Hf; cbn [pb_ok] in Hp; try discriminate Hp;
     unfold field_tag; cbn [wire fimg].
   - (* bool *) cbn [enc app]. rewrite <- (app_nil_r (append_varuint _)) at 1.
-    apply pb_varint; [exact Hi| |constructor]. destruct v as [[|]| | | | | | | | | | | |]; unfold two64; lia.
+    apply pbm_varint; [exact Hi| |constructor]. destruct v as [[|]| | | | | | | | | | | |]; unfold two64; lia.
   - (* int *) cbn [enc app]. unfold append_varint. rewrite <- (app_nil_r (append_varuint _)) at 1.
-    apply pb_varint; [exact Hi| |constructor]. cbn [fits] in Hf.
+    apply pbm_varint; [exact Hi| |constructor]. cbn [fits] in Hf.
     destruct v; try (apply zigzag_range; unfold int64_ok, two63Z; lia). apply zigzag_range. exact Hf.
   - (* uint *) cbn [enc app]. rewrite <- (app_nil_r (append_varuint _)) at 1.
-    apply pb_varint; [exact Hi| |constructor]. destruct v; try (unfold two64; lia). apply u64_lt.
+    apply pbm_varint; [exact Hi| |constructor]. destruct v; try (unfold two64; lia). apply u64_lt.
   - (* flat *) cbn [enc app]. rewrite <- (app_nil_r (append_varuint _)) at 1.
-    apply pb_varint; [exact Hi| |constructor]. cbn [fits] in Hf. destruct v; try (unfold two64; lia). apply ubits_lt. exact Hf.
+    apply pbm_varint; [exact Hi| |constructor]. cbn [fits] in Hf. destruct v; try (unfold two64; lia). apply ubits_lt. exact Hf.
   - (* float32 *) cbn [enc app]. rewrite <- (app_nil_r (le_bytes 4 _)) at 1.
-    apply pb_fixed32; [exact Hi|apply len_le_bytes|constructor].
+    apply pbm_fixed32; [exact Hi|apply len_le_bytes|constructor].
   - (* float64 *) cbn [enc app]. rewrite <- (app_nil_r (le_bytes 8 _)) at 1.
-    apply pb_fixed64; [exact Hi|apply len_le_bytes|constructor].
+    apply pbm_fixed64; [exact Hi|apply len_le_bytes|constructor].
   - (* string *) rewrite frame_shape by (reflexivity || apply append_tag_ne).
-    rewrite <- (app_nil_r (enc CString v [])) at 2. apply pb_length; [exact Hi| |constructor].
+    rewrite <- (app_nil_r (enc CString v [])) at 2. apply pbm_length; [exact Hi| |constructor].
     cbn [enc frame_tag]. exact Hf.
   - (* bytes *) rewrite frame_shape by (reflexivity || apply append_tag_ne).
-    rewrite <- (app_nil_r (enc CBytes v [])) at 2. apply pb_length; [exact Hi| |constructor].
+    rewrite <- (app_nil_r (enc CBytes v [])) at 2. apply pbm_length; [exact Hi| |constructor].
     cbn [enc frame_tag]. exact Hf.
   - (* time, Timestamp form *) rewrite frame_shape by (reflexivity || apply append_tag_ne).
-    rewrite <- (app_nil_r (enc (CTime compat) v [])) at 2. apply pb_length; [exact Hi| |constructor].
+    rewrite <- (app_nil_r (enc (CTime compat) v [])) at 2. apply pbm_length; [exact Hi| |constructor].
     cbn [enc frame_tag]. destruct v; apply time_body_len.
   - (* BQ timestamp *) cbn [enc app]. rewrite <- (app_nil_r (append_varuint _)) at 1.
-    apply pb_varint; [exact Hi| |constructor]. destruct v; try (unfold two64; lia). apply u64_lt.
+    apply pbm_varint; [exact Hi| |constructor]. destruct v; try (unfold two64; lia). apply u64_lt.
   - (* null *) cbn [enc]. apply (IH Hp _ idx Hi). exact Hf.
   - (* pointer *) cbn [enc]. destruct v as [| | | | | |[p|]| | | | | |]; try constructor. apply (IH Hp p idx Hi). exact Hf.
   - (* struct *) rewrite frame_shape by (reflexivity || apply append_tag_ne).
-    rewrite <- (app_nil_r (enc (CStruct nm n fs) v [])) at 2. apply pb_length; [exact Hi| |constructor].
+    rewrite <- (app_nil_r (enc (CStruct nm n fs) v [])) at 2. apply pbm_length; [exact Hi| |constructor].
     apply Hf.
   - (* packed varints *) rewrite frame_shape by (reflexivity || apply append_tag_ne).
-    rewrite <- (app_nil_r (enc (CSliceVar c) v [])) at 2. apply pb_length; [exact Hi| |constructor].
+    rewrite <- (app_nil_r (enc (CSliceVar c) v [])) at 2. apply pbm_length; [exact Hi| |constructor].
     apply Hf.
   - (* packed fixed *) rewrite frame_shape by (reflexivity || apply append_tag_ne).
-    rewrite <- (app_nil_r (enc (CSliceFix c) v [])) at 2. apply pb_length; [exact Hi| |constructor].
+    rewrite <- (app_nil_r (enc (CSliceFix c) v [])) at 2. apply pbm_length; [exact Hi| |constructor].
     apply Hf.
   - (* repeated field: one frame per element *) cbn [enc].
     apply (pb_msg_concat (fun x => enc c x (append_tag WTLength idx)) (fun x => fimg c x idx)).
@@ -134,7 +134,7 @@ Proof.
                          (fun e => [PBF idx WTLength (entry_body kc vc e)])).
     rewrite Forall_forall in *. intros e He. destruct (Hf e He) as (_ & _ & Hl).
     unfold lenframe. rewrite <- (app_nil_r (entry_body kc vc e)) at 2.
-    apply pb_length; [exact Hi|exact Hl|constructor].
+    apply pbm_length; [exact Hi|exact Hl|constructor].
 Qed.
 
 (** ** a whole struct *)
